@@ -1390,3 +1390,394 @@ theorem extract_ok_inv (dest : Path) (fs fs' : FS) (m : Member)
                 · cases hlc
 
 end Kapture.C18
+
+namespace Kapture.C18
+
+/-! ### benign members are extracted (link-free trees, plain names) -/
+
+def Plain (c : String) : Prop := c ≠ "" ∧ c ≠ "." ∧ c ≠ ".."
+
+theorem plain_flags {c : String} (h : Plain c) : (c == "" || c == ".") = false ∧ (c == "..") = false := by
+  obtain ⟨h1, h2, h3⟩ := h
+  exact ⟨by simp [h1, h2], by simp [h3]⟩
+
+theorem filter_plain (cs : List String) (h : ∀ c ∈ cs, Plain c) : cs.filter (fun c => !(c == "" || c == ".")) = cs := by
+  rw [List.filter_eq_self]
+  intro c hc
+  simp [(plain_flags (h c hc)).1]
+
+theorem nodeAt_not_link_of_linkfree {dest : Path} {fs : FS} (h : LinkFree fs) (p : Path) (t : String) :
+    nodeAt dest fs p ≠ some (Node.link t) := by
+  unfold nodeAt
+  split
+  · exact lookup_not_link fs h _ t
+  · simp
+
+/-- in a link-free tree `realpath` of plain components is the lexical path -/
+theorem realpath_plain {dest : Path} {fs : FS} (hl : LinkFree fs) (cs : List String) (hp : ∀ c ∈ cs, Plain c)
+    (hlen : cs.length < FUEL) (base : Path) : realpath dest fs FUEL base cs = some (base ++ cs) := by
+  have hdd : ".." ∉ cs := fun hm => (hp _ hm).2.2 rfl
+  have := realpath_lexical_some dest fs cs base (fun x _ l => nodeAt_not_link_of_linkfree hl _ l) hdd
+  rw [filter_plain cs hp] at this
+  exact realpath_mono_le dest fs (by omega) this
+
+theorem linkFree_setNode {fs : FS} (h : LinkFree fs) (p : Path) (n : Node) (hn : ∀ t, n ≠ Node.link t) : LinkFree (setNode fs p n) := by
+  intro e he t
+  unfold setNode at he
+  split at he
+  · rw [List.mem_map] at he
+    obtain ⟨e0, he0, rfl⟩ := he
+    split
+    · exact hn t
+    · exact h e0 he0 t
+  · rcases List.mem_append.mp he with he | he
+    · exact h e he t
+    · simp at he; subst he; exact hn t
+
+/-- the state of the `os.makedirs` walk along a plain path `pre` in a link-free tree with no file in the way -/
+structure BenignWalk (dest : Path) (fs : FS) (w : Walk) (pre : List String) : Prop where
+  cur : w.cur = dest ++ pre
+  linkFree : LinkFree w.fs
+  frame : ∀ q, isPrefix q pre = false → lookup w.fs q = lookup fs q
+  made : ∀ q, isPrefix q pre = true → lookup w.fs q = some Node.dir
+
+theorem existsAbs_below (dest : Path) (fs : FS) (x : Path) : existsAbs dest fs (dest ++ x) = lookup fs x := by
+  simp [existsAbs, isPrefix_append, rel]
+
+theorem isPrefix_concat_false {q pre : Path} {c : String} (h : isPrefix q (pre ++ [c]) = false) : isPrefix q pre = false := by
+  cases hq : isPrefix q pre with
+  | false => rfl
+  | true => rw [isPrefix_trans hq (isPrefix_append pre [c])] at h; cases h
+
+theorem isPrefix_concat_cases {q pre : Path} {c : String} (h : isPrefix q (pre ++ [c]) = true) :
+    q = pre ++ [c] ∨ isPrefix q pre = true := by
+  by_cases e : q = pre ++ [c]
+  · exact Or.inl e
+  · right
+    have := isPrefix_dropLast h e
+    rwa [List.dropLast_concat] at this
+
+theorem benign_walkStep {dest : Path} {fs : FS} {w : Walk} {pre : List String} {c : String} (hc : Plain c)
+    (inv : BenignWalk dest fs w pre) (hnf : ∀ k, lookup fs (pre ++ [c]) ≠ some (Node.file k)) :
+    ∃ w', walkStep dest w c = Except.ok w' ∧ BenignWalk dest fs w' (pre ++ [c]) := by
+  obtain ⟨h1, h2⟩ := plain_flags hc
+  have hlit : w.cur ++ [c] = dest ++ (pre ++ [c]) := by rw [inv.cur, List.append_assoc]
+  have hnp : isPrefix (pre ++ [c]) pre = false := by
+    cases h : isPrefix (pre ++ [c]) pre with
+    | false => rfl
+    | true => have := isPrefix_length h; simp at this; omega
+  have hfr := inv.frame _ hnp
+  unfold walkStep
+  rw [if_neg (by simp [h1]), if_neg (by simp [h2])]
+  dsimp only
+  rw [hlit, existsAbs_below]
+  cases hlk : lookup w.fs (pre ++ [c]) with
+  | none =>
+    dsimp only
+    have hs : strictInside dest (dest ++ (pre ++ [c])) = true := by simp [strictInside, isPrefix_append]
+    rw [if_pos hs, rel_append]
+    refine ⟨_, rfl, ⟨rfl, linkFree_setNode inv.linkFree _ _ (by simp), fun q hq => ?_, fun q hq => ?_⟩⟩
+    · have hne : q ≠ pre ++ [c] := by intro e; rw [e, isPrefix_refl] at hq; cases hq
+      dsimp only
+      rw [lookup_setNode_ne _ _ _ _ hne]
+      exact inv.frame q (isPrefix_concat_false hq)
+    · dsimp only
+      rcases isPrefix_concat_cases hq with e | hq'
+      · rw [e, lookup_setNode_self _ _ _ (by simp)]
+      · have hne : q ≠ pre ++ [c] := by intro e; rw [e] at hq'; rw [hq'] at hnp; cases hnp
+        rw [lookup_setNode_ne _ _ _ _ hne]
+        exact inv.made q hq'
+  | some nd =>
+    cases nd with
+    | file k => exact absurd (hfr ▸ hlk) (hnf k)
+    | link t => exact absurd hlk (lookup_not_link _ inv.linkFree _ t)
+    | dir =>
+      dsimp only
+      refine ⟨_, rfl, ⟨rfl, inv.linkFree, fun q hq => inv.frame q (isPrefix_concat_false hq), fun q hq => ?_⟩⟩
+      rcases isPrefix_concat_cases hq with e | hq'
+      · rw [e]; exact hlk
+      · exact inv.made q hq'
+
+theorem benign_walk {dest : Path} {fs : FS} : ∀ (todo : List String) (w : Walk) (pre : List String),
+    (∀ c ∈ todo, Plain c) → BenignWalk dest fs w pre →
+    (∀ x, isPrefix x todo = true → x ≠ [] → ∀ k, lookup fs (pre ++ x) ≠ some (Node.file k)) →
+    ∃ w', todo.foldlM (walkStep dest) w = Except.ok w' ∧ BenignWalk dest fs w' (pre ++ todo) := by
+  intro todo
+  induction todo with
+  | nil => intro w pre _ inv _; exact ⟨w, rfl, by simpa using inv⟩
+  | cons c todo ih =>
+    intro w pre hp inv hnf
+    obtain ⟨w1, hw1, inv1⟩ := benign_walkStep (hp c (by simp)) inv (hnf [c] (isPrefix_iff.mpr ⟨todo, rfl⟩) (by simp))
+    obtain ⟨w2, hw2, inv2⟩ := ih w1 (pre ++ [c]) (fun c' hc' => hp c' (List.mem_cons_of_mem _ hc')) inv1 (fun x hx hne k => by
+      rw [List.append_assoc]
+      refine hnf ([c] ++ x) ?_ (by simp) k
+      obtain ⟨y, rfl⟩ := isPrefix_iff.mp hx
+      exact isPrefix_iff.mpr ⟨y, by simp⟩)
+    refine ⟨w2, ?_, by simpa using inv2⟩
+    rw [List.foldlM_cons, hw1]
+    exact hw2
+
+end Kapture.C18
+
+namespace Kapture.C18
+
+/-- where the kernel's walk of plain components succeeds in a link-free tree, every component exists: directories all the
+  way, the last one a directory or a file -/
+theorem kresolve_plain {dest : Path} {fs : FS} (hl : LinkFree fs) : ∀ (cs : List String) (n : Nat) (pre : List String) (p : Path),
+    (∀ c ∈ cs, Plain c) → kresolve dest fs n (dest ++ pre) cs = some p →
+    p = dest ++ pre ++ cs ∧
+    (∀ x, isPrefix x cs = true → x ≠ [] → x ≠ cs → lookup fs (pre ++ x) = some Node.dir) ∧
+    (cs ≠ [] → ∃ nd, lookup fs (pre ++ cs) = some nd ∧ ∀ t, nd ≠ Node.link t) := by
+  intro cs
+  induction cs with
+  | nil =>
+    intro n pre p _ h
+    cases n with
+    | zero => simp [kresolve] at h
+    | succ n =>
+      simp [kresolve] at h
+      refine ⟨by simp [h], fun x hx hne => ?_, fun h => absurd rfl h⟩
+      obtain ⟨y, hy⟩ := isPrefix_iff.mp hx
+      have : x = [] := by
+        have := congrArg List.length hy; simp at this; exact List.eq_nil_of_length_eq_zero (by omega)
+      exact absurd this hne
+  | cons c rest ih =>
+    intro n pre p hp h
+    have hc := hp c (by simp)
+    obtain ⟨h1, h2⟩ := plain_flags hc
+    cases n with
+    | zero => simp [kresolve] at h
+    | succ n =>
+      rw [kresolve.eq_3] at h
+      dsimp only at h
+      rw [if_neg (by simp [h1]), if_neg (by simp [h2])] at h
+      have hin : isPrefix dest (dest ++ pre ++ [c]) = true := by rw [List.append_assoc]; exact isPrefix_append _ _
+      have hdrop : List.drop dest.length (dest ++ pre ++ [c]) = pre ++ [c] := by simp
+      rw [if_neg (by rw [hin]; simp), hdrop] at h
+      have hrest : ∀ c' ∈ rest, Plain c' := fun c' hc' => hp c' (List.mem_cons_of_mem _ hc')
+      -- the common ending: after entering pre ++ [c] (a directory, or a file when nothing follows)
+      have finish : ∀ nd, lookup fs (pre ++ [c]) = some nd → (∀ t, nd ≠ Node.link t) → (rest ≠ [] → nd = Node.dir) →
+          kresolve dest fs n (dest ++ (pre ++ [c])) rest = some p →
+          p = dest ++ pre ++ c :: rest ∧
+          (∀ x, isPrefix x (c :: rest) = true → x ≠ [] → x ≠ c :: rest → lookup fs (pre ++ x) = some Node.dir) ∧
+          (c :: rest ≠ [] → ∃ nd, lookup fs (pre ++ c :: rest) = some nd ∧ ∀ t, nd ≠ Node.link t) := by
+        intro nd hnd hnl hdir hk
+        obtain ⟨hp1, hp2, hp3⟩ := ih n (pre ++ [c]) p hrest hk
+        refine ⟨by rw [hp1]; simp, fun x hx hne hne2 => ?_, fun _ => ?_⟩
+        · obtain ⟨y, hy⟩ := isPrefix_iff.mp hx
+          cases x with
+          | nil => exact absurd rfl hne
+          | cons a x' =>
+            have ha : a = c := by simp at hy; exact hy.1.symm
+            subst ha
+            have hx' : isPrefix x' rest = true := isPrefix_iff.mpr ⟨y, by simp at hy; exact hy⟩
+            by_cases hx0 : x' = []
+            · subst hx0
+              have hr : rest ≠ [] := by intro e; apply hne2; rw [e]
+              rw [← hdir hr]; exact hnd
+            · have := hp2 x' hx' hx0 (fun e => hne2 (by rw [e]))
+              simpa using this
+        · by_cases hr : rest = []
+          · subst hr; exact ⟨nd, hnd, hnl⟩
+          · obtain ⟨nd', h1', h2'⟩ := hp3 hr
+            exact ⟨nd', by simpa using h1', h2'⟩
+      rw [show dest ++ pre ++ [c] = dest ++ (pre ++ [c]) by simp] at h
+      split at h
+      · cases h
+      · rename_i t hlk; exact absurd hlk (lookup_not_link fs hl _ t)
+      · rename_i hlk
+        exact finish Node.dir hlk (by simp) (fun _ => rfl) h
+      · rename_i k hlk
+        split at h
+        · rename_i hall
+          refine finish (Node.file k) hlk (by simp) (fun hr => ?_) h
+          exfalso
+          cases rest with
+          | nil => exact hr rfl
+          | cons c' rest' =>
+            have := (plain_flags (hrest c' (by simp))).1
+            simp only [List.all_cons, Bool.and_eq_true] at hall
+            rw [this] at hall
+            exact absurd hall.1 (by simp)
+        · cases h
+
+/-- a regular member with a plain name, in a link-free tree where no file stands on the way and the destination is not a
+  directory, is extracted: the file is there with its content, the missing directories have been made, nothing else moved -/
+theorem benign_member {dest : Path} {fs : FS} (hl : LinkFree fs) (earlier : List Member) (m : Member) (hk : m.kind = Kind.file)
+    (comps : List String) (hn0 : ".." ∉ split m.name) (hn : split (stripSlashes m.name) = comps) (hne : comps ≠ [])
+    (hp : ∀ c ∈ comps, Plain c) (hlen : comps.length < FUEL)
+    (hnf : ∀ x, isPrefix x comps = true → x ≠ [] → x ≠ comps → ∀ k, lookup fs x ≠ some (Node.file k))
+    (htd : lookup fs comps ≠ some Node.dir) :
+    ∃ fs', extractMember dest fs earlier m = Verdict.ok fs' ∧ lookup fs' comps = some (Node.file m.content) ∧ LinkFree fs' ∧
+      (∀ q, isPrefix q comps = false → lookup fs' q = lookup fs q) ∧
+      (∀ q, isPrefix q comps = true → q ≠ comps → lookup fs' q = some Node.dir) := by
+  have hcs := dropLast_getLast hne
+  generalize hdl : comps.dropLast = dl at hcs
+  generalize hla : comps.getLast?.getD "" = last at hcs
+  have hpd : ∀ c ∈ dl, Plain c := fun c hc => hp c (by rw [hcs]; exact List.mem_append_left _ hc)
+  have hpl : Plain last := hp last (by rw [hcs]; simp)
+  obtain ⟨hl1, hl2⟩ := plain_flags hpl
+  have hdd : ".." ∉ comps := fun hm => (hp _ hm).2.2 rfl
+  -- the walk of the parent: it ends at dest ++ dl, an existing directory, having touched prefixes of dl only
+  have hwalk : ∃ w, walkUpper dest fs dl = Except.ok w ∧ BenignWalk dest fs w dl := by
+    unfold walkUpper
+    cases hkr : kresolve dest fs FUEL dest dl with
+    | some p =>
+      have hkr' : kresolve dest fs FUEL (dest ++ []) dl = some p := by simpa using hkr
+      obtain ⟨hp1, hp2, hp3⟩ := kresolve_plain hl dl FUEL [] p hpd hkr'
+      refine ⟨_, rfl, ⟨by simpa using hp1, hl, fun _ _ => rfl, fun q hq => ?_⟩⟩
+      dsimp only
+      by_cases hq0 : q = []
+      · rw [hq0, lookup_nil]
+      · by_cases hqd : q = dl
+        · have hdne : dl ≠ [] := hqd ▸ hq0
+          obtain ⟨nd, hnd, hnl⟩ := hp3 hdne
+          simp only [List.nil_append] at hnd
+          rw [hqd, hnd]
+          cases nd with
+          | dir => rfl
+          | link t => exact absurd rfl (hnl t)
+          | file k =>
+            exfalso
+            refine hnf dl (by rw [hcs]; exact isPrefix_append _ _) hdne (fun e => ?_) k hnd
+            have := congrArg List.length e
+            rw [hcs] at this; simp at this
+        · simpa using hp2 q hq hq0 hqd
+    | none =>
+      dsimp only
+      unfold walkParent
+      have := benign_walk (dest := dest) (fs := fs) dl { fs := fs, cur := dest, creating := false } [] hpd
+        ⟨by simp, hl, fun _ _ => rfl, fun q hq => by
+          have : q = [] := by
+            obtain ⟨y, hy⟩ := isPrefix_iff.mp hq
+            have := congrArg List.length hy; simp at this; exact List.eq_nil_of_length_eq_zero (by omega)
+          rw [this, lookup_nil]⟩
+        (fun x hx hx0 k => by
+          simp only [List.nil_append]
+          refine hnf x ?_ hx0 (fun e => ?_) k
+          · rw [hcs]; exact isPrefix_trans hx (isPrefix_append _ _)
+          · have := isPrefix_length hx
+            rw [e, hcs] at this; simp at this; omega)
+      simpa using this
+  obtain ⟨w, hwu, inv⟩ := hwalk
+  have hncp : isPrefix comps dl = false := by
+    cases h : isPrefix comps dl with
+    | false => rfl
+    | true => have := isPrefix_length h; rw [hcs] at this; simp at this; omega
+  have hdir : isDirAt dest w.fs w.cur = true := by
+    rw [inv.cur]
+    simp [isDirAt, isPrefix_append, rel, inv.made dl (isPrefix_refl dl)]
+  have hex : existsAbs dest w.fs (w.cur ++ [last]) = lookup fs comps := by
+    rw [inv.cur, List.append_assoc, existsAbs_below, ← hcs, inv.frame comps hncp]
+  have hs : strictInside dest (w.cur ++ [last]) = true := by
+    rw [inv.cur, List.append_assoc]; simp [strictInside, isPrefix_append]
+  have hrel : rel dest (w.cur ++ [last]) = comps := by rw [inv.cur, List.append_assoc, rel_append, ← hcs]
+  refine ⟨setNode w.fs comps (Node.file m.content), ?_, lookup_setNode_self _ _ _ hne,
+    linkFree_setNode inv.linkFree _ _ (by simp), fun q hq => ?_, fun q hq hqc => ?_⟩
+  · unfold extractMember
+    dsimp only
+    have hg : ((split m.name).contains ".." || (split (stripSlashes m.name)).contains "..") = false := by
+      rw [hn]; simp [hn0, hdd]
+    rw [hg, hn, realpath_plain hl comps hp hlen dest]
+    simp only [Bool.false_eq_true, if_false, isPrefix_append, Bool.not_true, hk]
+    simp only [show (Kind.file == Kind.special) = false by decide, show (Kind.file == Kind.sym || Kind.file == Kind.hard) = false by decide,
+      Bool.false_eq_true, if_false]
+    unfold placeMember
+    rw [hdl, hla, hwu]
+    dsimp only
+    rw [hdir]
+    simp only [Bool.not_true, Bool.false_eq_true, if_false]
+    unfold placeFinal
+    dsimp only
+    simp only [hl1, hl2, hk, Bool.false_eq_true, if_false, Bool.or_false, hex]
+    cases hlk : lookup fs comps with
+    | none => dsimp only; rw [writeAt_inside hs, hrel]
+    | some nd =>
+      cases nd with
+      | dir => exact absurd hlk htd
+      | link t => exact absurd hlk (lookup_not_link fs hl _ t)
+      | file k => dsimp only; rw [writeAt_inside hs, hrel]
+  · have hne' : q ≠ comps := by intro e; rw [e, isPrefix_refl] at hq; cases hq
+    rw [lookup_setNode_ne _ _ _ _ hne']
+    refine inv.frame q ?_
+    cases h : isPrefix q dl with
+    | false => rfl
+    | true => rw [hcs, isPrefix_trans h (isPrefix_append _ _)] at hq; cases hq
+  · rw [lookup_setNode_ne _ _ _ _ hqc]
+    refine inv.made q ?_
+    rw [hcs] at hq
+    rcases isPrefix_concat_cases hq with e | h
+    · exact absurd (e.trans hcs.symm) hqc
+    · exact h
+
+end Kapture.C18
+
+namespace Kapture.C18
+
+/-- the components a member's name is walked by -/
+def pathOf (m : Member) : List String := split (stripSlashes m.name)
+
+/-- a regular file with a plain relative name -/
+def BenignFile (m : Member) : Prop :=
+  m.kind = Kind.file ∧ ".." ∉ split m.name ∧ pathOf m ≠ [] ∧ (∀ c ∈ pathOf m, Plain c) ∧ (pathOf m).length < FUEL
+
+/-- neither path is the other or lies below it -/
+def Apart (a b : Member) : Prop := isPrefix (pathOf a) (pathOf b) = false ∧ isPrefix (pathOf b) (pathOf a) = false
+
+/-- what the tree holds while a benign archive is being extracted: the files extracted so far, and the directories above them -/
+structure BenignTree (fs : FS) (done : List Member) : Prop where
+  linkFree : LinkFree fs
+  files : ∀ q k, lookup fs q = some (Node.file k) → ∃ d ∈ done, q = pathOf d
+  dirs : ∀ q, q ≠ [] → lookup fs q = some Node.dir → ∃ d ∈ done, isPrefix q (pathOf d) = true ∧ q ≠ pathOf d
+
+theorem benign_untarFrom {dest : Path} : ∀ (ms : List Member) (fs : FS) (earlier done : List Member),
+    BenignTree fs done → (∀ m ∈ ms, BenignFile m) → (∀ d ∈ done, ∀ m ∈ ms, Apart d m) → ms.Pairwise Apart →
+    ∃ fs', untarFrom dest fs earlier ms = (fs', none) ∧
+      (∀ m ∈ ms, lookup fs' (pathOf m) = some (Node.file m.content)) ∧
+      (∀ q, (∀ m ∈ ms, isPrefix q (pathOf m) = false) → lookup fs' q = lookup fs q) := by
+  intro ms
+  induction ms with
+  | nil => intro fs earlier done _ _ _ _; exact ⟨fs, rfl, by simp, fun _ _ => rfl⟩
+  | cons m ms ih =>
+    intro fs earlier done inv hb hapart hpw
+    obtain ⟨hk, hn0, hne, hp, hlen⟩ := hb m (by simp)
+    have hnf : ∀ x, isPrefix x (pathOf m) = true → x ≠ [] → x ≠ pathOf m → ∀ k, lookup fs x ≠ some (Node.file k) := by
+      intro x hx _ _ k hlk
+      obtain ⟨d, hd, rfl⟩ := inv.files x k hlk
+      rw [(hapart d hd m (by simp)).1] at hx; cases hx
+    have htd : lookup fs (pathOf m) ≠ some Node.dir := by
+      intro hlk
+      obtain ⟨d, hd, hpre, _⟩ := inv.dirs _ hne hlk
+      rw [(hapart d hd m (by simp)).2] at hpre; cases hpre
+    obtain ⟨fs1, hex, hfile, hlf, hframe, hmade⟩ := benign_member (dest := dest) inv.linkFree earlier m hk (pathOf m) hn0 rfl hne hp hlen hnf htd
+    have inv1 : BenignTree fs1 (done ++ [m]) := by
+      refine ⟨hlf, fun q k hq => ?_, fun q hq0 hq => ?_⟩
+      · by_cases hpre : isPrefix q (pathOf m) = true
+        · by_cases e : q = pathOf m
+          · exact ⟨m, by simp, e⟩
+          · rw [hmade q hpre e] at hq; cases hq
+        · rw [hframe q (by simpa using hpre)] at hq
+          obtain ⟨d, hd, e⟩ := inv.files q k hq
+          exact ⟨d, List.mem_append_left _ hd, e⟩
+      · by_cases hpre : isPrefix q (pathOf m) = true
+        · by_cases e : q = pathOf m
+          · rw [e, hfile] at hq; cases hq
+          · exact ⟨m, by simp, hpre, e⟩
+        · rw [hframe q (by simpa using hpre)] at hq
+          obtain ⟨d, hd, h1, h2⟩ := inv.dirs q hq0 hq
+          exact ⟨d, List.mem_append_left _ hd, h1, h2⟩
+    have hpw' := List.pairwise_cons.mp hpw
+    obtain ⟨fs', hrun, hall, hfr⟩ := ih fs1 (earlier ++ [m]) (done ++ [m]) inv1 (fun m' hm' => hb m' (List.mem_cons_of_mem _ hm'))
+      (fun d hd m' hm' => by
+        rcases List.mem_append.mp hd with hd | hd
+        · exact hapart d hd m' (List.mem_cons_of_mem _ hm')
+        · simp at hd; subst hd; exact hpw'.1 m' hm')
+      hpw'.2
+    refine ⟨fs', by rw [untarFrom, hex]; exact hrun, fun m' hm' => ?_, fun q hq => ?_⟩
+    · rcases List.mem_cons.mp hm' with rfl | hm'
+      · rw [hfr _ (fun m'' hm'' => (hpw'.1 m'' hm'').1)]; exact hfile
+      · exact hall m' hm'
+    · rw [hfr q (fun m' hm' => hq m' (List.mem_cons_of_mem _ hm'))]
+      exact hframe q (hq m (by simp))
+
+end Kapture.C18
